@@ -98,7 +98,8 @@ def check_send(rep, http, f):
     if len(aggs) == 1:
         rv = aggs[0].stmt['rv']
         mw = dict(zip(rv['fields'], rv['ops']))['middleware']
-        srcs = origins(f, mw, extra_identity=[('alloc::sync::Arc::new', 0)])
+        from rules.props import prims as _pr
+        srcs = _pr.origins_nt(http, f, mw, extra_identity=[('alloc::sync::Arc::new', 0)])
         ok = bool(srcs) and all(o.kind == 'call' and call_matches(o.term, ['alloc::vec::Vec::new']) for o in srcs)
     rep.expect('R16.e', ok, 'empty-stack', 'next.run receives Client { middleware: Arc::new(vec![]) }',
                'the Client handed to the middleware chain in Client::send is not built with an empty middleware stack')
@@ -253,9 +254,24 @@ def check_next(rep, http):
                 if o.kind == 'call' and o.bb == sb and '.1' in o.suffix:
                     if f.dominates(bb, hb):
                         tail_assign = True
+    # ... or the head is handed a NEW Next built from the tail and the same endpoint (`Step::Through(current, Next { remaining: rest, endpoint })`)
+    nxt = origins(f, ht['args'][3])
+    if not tail_assign and nxt and all(o.kind == 'agg' and path_matches(o.stmt['rv'].get('adt'), 'crux_http::middleware::Next') for o in nxt):
+        good_ = True
+        for o in nxt:
+            flds = dict(zip(o.stmt['rv']['fields'], o.stmt['rv']['ops']))
+            chain_ops = [v_ for k_, v_ in flds.items() if ('.' + k_) in chain_fields]
+            rest_ok = len(chain_ops) == 1 and bool(origins(f, chain_ops[0])) and all(x.kind == 'call' and x.bb == sb and '.1' in x.suffix for x in origins(f, chain_ops[0]))
+            ep_ops = [v_ for k_, v_ in flds.items() if ('.' + k_) not in chain_fields]
+            ep_ok = len(ep_ops) == 1 and bool(origins(f, ep_ops[0])) and all(x.kind == 'arg' and x.n == 1 and any(tok.startswith('.') for tok in x.suffix) for x in origins(f, ep_ops[0]))
+            good_ = good_ and rest_ok and ep_ok
+        tail_assign = good_
+        fresh_next = good_
+    else:
+        fresh_next = False
     head_ok = any(o.kind == 'call' and o.bb == sb and '.0' in o.suffix for o in origins(f, ht['args'][0], extra_identity=[
         ('core::ops::deref::Deref::deref', 0)]))
-    self_passed = any(o.kind == 'arg' and o.n == 1 for o in origins(f, ht['args'][3]))
+    self_passed = fresh_next or any(o.kind == 'arg' and o.n == 1 for o in origins(f, ht['args'][3]))
     rep.expect('R16.b', tail_assign and head_ok and self_passed, 'peel-one',
                'next_middleware := tail before handle(head, .., self)',
                'Next::run does not hand the tail of split_first to the head middleware (tail assigned: %s, head: %s, self passed: %s)'
